@@ -4,4 +4,8 @@ packages assigns to a package-level variable. -/
 namespace PP.Tie
 theorem pin_no_global_writes_stack : PP.Extracted.stackGlobalWrites = [] := by decide
 theorem pin_no_global_writes_internal : PP.Extracted.internalGlobalWrites = [] := by decide
+/-- the library starts no goroutines (scheduling cannot influence a result); the
+command starts one, in Main, to swallow signals -/
+theorem pin_no_goroutines_stack : PP.Extracted.stackGoStmts = [] := by decide
+theorem pin_goroutines_internal : PP.Extracted.internalGoStmts = ["Main"] := by decide
 end PP.Tie
